@@ -61,6 +61,23 @@ def encCounter : Counter → Json
   | none => Json.num (Lean.JsonNumber.fromInt (-1))
   | some n => Json.num n
 
+partial def decElem (j : Json) : Except String XElem := do
+  let tag ← decStr (← j.getObjVal? "tag")
+  let attrs ← (← (← j.getObjVal? "attrs").getArr?).toList.mapM fun a => do
+    let p ← a.getArr?
+    if p.size != 2 then throw "bad attr"
+    pure ((← decStr p[0]!), (← decStr p[1]!))
+  let text ← match j.getObjVal? "text" with
+    | .ok Json.null => pure none
+    | .ok v => do pure (some (← decStr v))
+    | .error _ => pure none
+  let kids ← (← (← j.getObjVal? "children").getArr?).toList.mapM decElem
+  pure (.mk tag attrs text kids)
+
+partial def encElem : XElem → Json
+  | .mk tag attrs text kids => Json.mkObj [("tag", str tag), ("attrs", Json.arr (attrs.map fun a => Json.arr #[str a.1, str a.2]).toArray),
+      ("text", match text with | some t => str t | none => Json.null), ("children", Json.arr (kids.map encElem).toArray)]
+
 def decFlavor (j : Json) : Except String Flavor := do
   match j.getObjVal? "fl" with
   | .ok v => match ← v.getStr? with
@@ -206,6 +223,11 @@ def handle (j : Json) : Except String Json := do
     match validateScope (some (← decStr (← j.getObjVal? "s"))) with
     | some xs => pure (Json.arr (xs.map encScalar).toArray)
     | none => pure (Json.str "none")
+  | "xml_to_dict" =>
+    let (es, c) := xmlToDict (← decCounter j) (← decElem (← j.getObjVal? "elem"))
+    pure (Json.mkObj [("data", encEntries es), ("counter", encCounter c)])
+  | "dict_to_xml" =>
+    pure (encElem (dictToXml (← decStr (← j.getObjVal? "tag")) (.dict (← decEntries (← j.getObjVal? "e")))))
   | "evalint" =>
     match evalInt (← decStr (← j.getObjVal? "s")) with
     | .value v => pure (encVal v)
